@@ -399,3 +399,41 @@ pub fn add_check<T: Uni>(prop: &'static str, alpha: &str, depth: usize, filter: 
     b.extra = Box::new(move || json!({"worst_error_over_envelope": board.dump(), "distinct_multisets": cache.len()}));
     Box::new(b)
 }
+
+// ---------------------------------------------------------------------------------------
+// BFS check with an independent stateright enumeration of the same spec
+
+pub struct CrossBfs<S: Spec> {
+    pub spec: Arc<S>,
+    pub lim: Limits,
+}
+impl<S: ReplaySpec + Send + 'static> Check for CrossBfs<S>
+where
+    S::Op: std::fmt::Debug + PartialEq,
+{
+    fn name(&self) -> String {
+        format!("{}+stateright", self.spec.name())
+    }
+    fn run(&self) -> Stats {
+        let mut st = explore(&*self.spec, &self.lim);
+        st.spec = self.name();
+        let sr = crate::sr::cross_check(self.spec.clone(), self.lim.max_depth);
+        st.stateright_states = Some(sr.unique_states as u64);
+        let mine_violated = !st.found.is_empty();
+        if sr.violated != mine_violated {
+            st.engine_error = Some(format!("explorer and stateright disagree on the verdict of {} (explorer violated: {mine_violated}, stateright: {})", self.name(), sr.violated));
+        } else if !mine_violated && st.capped.is_none() && sr.unique_states as u64 != st.states {
+            st.engine_error = Some(format!("explorer found {} states, stateright {} for {}", st.states, sr.unique_states, self.name()));
+        }
+        st
+    }
+    fn replay(&self, path: &[Value]) -> Result<Vec<Violation>, String> {
+        replay_spec(&*self.spec, path)
+    }
+}
+pub fn cross<S: ReplaySpec + Send + 'static>(spec: S, depth: usize) -> Box<dyn Check>
+where
+    S::Op: std::fmt::Debug + PartialEq,
+{
+    Box::new(CrossBfs { spec: Arc::new(spec), lim: Limits { max_depth: depth, max_states: 40_000_000, max_wall_s: 3600.0 } })
+}
